@@ -78,7 +78,9 @@ PROPS = {
                 "placement of copies on 1-5 stores with per-copy chunk cuts; in 2/3 of the runs every copy is complete, otherwise copies are "
                 "partial windows) queried once through query.NewQueryableCreator(...).Querier().Select() with deduplication on (2/3) or off, "
                 "lazy/eager proxy, response batch size 0/1/2/7/64, full or partial time range, and a client that iterates Next-first or "
-                "Seek-first. distinct = distinct event-log hash; non-trivial = the model expects at least one series.",
+                "Seek-first; samples are 1 s, 15 s or 60 s apart; on scripted stores a third of the copies is cut into chunks that overlap in time "
+                "(each reaching 1-2 samples into the next, or one lying inside another), and a series of a store whose external labels hold the replica "
+                "label may also carry a stored label of that name. distinct = distinct event-log hash; non-trivial = the model expects at least one series.",
         "components": {"real": RC_COMPONENTS["real"] + ["pkg/query querier (Select, seriesServer, promSeriesSet, chunkSeriesIterator, "
                                                         "lazySeriesSet, select gate)", "pkg/dedup (overlap split, penalty dedup iterator, bounded iterator)"],
                        "stub": RC_COMPONENTS["stub"] + ["PromQL engine (the client task calls Select and iterates itself)"]},
@@ -120,8 +122,8 @@ PROPS = {
         "quick": {"runs": 6000, "seconds": 60},
         "thorough": {"runs": 150000, "seconds": 840},
         "rule": "one evaluation = either (a) one cluster of 1-5 stores and 2-4 sequential sharded Series requests (by/without labels, "
-                "lazy/eager, early termination by series limit or client cancellation, failing stores; in half of the runs the goroutine of a response set that is about to hash a received series for the shard decision is a schedulable step of its own) or (b) one BucketedPool "
-                "(drawn bucket sizes and byte budget) and 1-4 tasks with drawn Get/Put histories interleaved by the scheduler. "
+                "lazy/eager, early termination by series limit or client cancellation, failing stores; in half of the runs the goroutine of a response set that is about to hash a received series for the shard decision is a schedulable step of its own; a third of the requests has a store that keeps delivering frames after the request cancelled its stream, and in a third of the runs the scheduler may let more than a response timeout pass instead of releasing an operation) or (b) one BucketedPool "
+                "(drawn bucket sizes and byte budget) and 1-4 tasks with drawn Get/Put histories interleaved by the scheduler, or (c, one run in fifteen, unscheduled) 2-6 really parallel goroutines asking one pool for a buffer each at the same moment, 6000 rounds: what they hold together stays within the budget and usage returns to zero. "
                 "distinct = distinct event-log hash; non-trivial = (a) at least one shard buffer was returned, (b) at least one Get succeeded.",
         "components": {"real": RC_COMPONENTS["real"] + ["pkg/pool.BucketedPool"], "stub": RC_COMPONENTS["stub"]},
         "assumptions": ["(a) requests of one proxy run one after another, so within a request every pool Get precedes every Put and a buffer "
